@@ -12,7 +12,7 @@ def _dump_chunk(items):
     from . import drive, graph_proj
     out = []
     for it in items:
-        d = drive.dump(it["sql"], it["dialect"], metadata=it["metadata"], pre_calls=it.get("pre_calls", ()), served=it.get("served", False))
+        d = drive.dump(it["sql"], it["dialect"], metadata=it["metadata"], pre_calls=it.get("pre_calls", ()), served=it.get("served", False), warm=it.get("warm"))
         p = graph_proj.project(d)
         extra = None
         if p is not None:
@@ -38,10 +38,19 @@ def run(chk, which, items):
     from . import features
     PRE = [(), ({"exclude_path_ending_in_subquery": False},), ({"exclude_subquery_columns": True},), ("cytoscape_column", "str"),
            ({"exclude_path_ending_in_subquery": False, "exclude_subquery_columns": True}, "cytoscape_table")]
+    if which == "C18":
+        # texts that analyse differently under two dialects, asked from the web application under one and then the other
+        items = list(items) + [
+            {"sql": 'insert into tgt select "Id" from src', "dialect": "mysql", "warm": "ansi", "metadata": None, "origin": "pinned"},
+            {"sql": 'insert into tgt select "Id" from src', "dialect": "ansi", "warm": "mysql", "metadata": None, "origin": "pinned"},
+            {"sql": "select a into tgt from src", "dialect": "postgres", "warm": "mysql", "metadata": None, "origin": "pinned"},
+            {"sql": "select a into tgt from src", "dialect": "mysql", "warm": "postgres", "metadata": None, "origin": "pinned"}]
     for i, it in enumerate(items):
         it["pre_calls"] = PRE[(i + chk.seed) % len(PRE)]
         # C18: every fourth result's exports are the ones the web application serves for the same text (POST /lineage)
-        it["served"] = which == "C18" and i % 4 == 1 and it["dialect"] != "non-validating"
+        it["served"] = which == "C18" and (i % 4 == 1 or bool(it.get("warm"))) and it["dialect"] != "non-validating"
+        if it["served"] and not it.get("warm") and it["dialect"] != "ansi":
+            it["warm"] = "ansi"
     pool = mp.Pool(16)
     try:
         res = pool.map(_dump_chunk, chunks(items, 64))
